@@ -70,10 +70,15 @@ GradOf(doc, gi) ==
                          ELSE IF bb THEN RedQ(pctnum, 100)
                          ELSE RedQ(pctnum * (IF name \in {"y1", "y2", "cy", "fy"} THEN vh ELSE vw), 100)
       cx == Dft("cx", 50)  cy == Dft("cy", 50)
-      focal == ~lin /\ ((Has(at, "fx") /\ Val(Get(at, "fx"))[1] * cx[2] # cx[1] * Val(Get(at, "fx"))[2])
-                        \/ (Has(at, "fy") /\ Val(Get(at, "fy"))[1] * cy[2] # cy[1] * Val(Get(at, "fy"))[2])
+      focal == ~lin /\ ((Has(at, "fx") /\ Dft("fx", 50)[1] * cx[2] # cx[1] * Dft("fx", 50)[2])
+                        \/ (Has(at, "fy") /\ Dft("fy", 50)[1] * cy[2] # cy[1] * Dft("fy", 50)[2])
                         \/ (Has(at, "fr") /\ Val(Get(at, "fr"))[1] # 0))
-  IN [kind |-> IF lin THEN "linear" ELSE IF focal THEN "radialf" ELSE "radial",
+      fx == IF Has(at, "fx") THEN Dft("fx", 50) ELSE cx
+      fy == IF Has(at, "fy") THEN Dft("fy", 50) ELSE cy
+      \* a radius given as a percentage of a non-square viewport involves sqrt((w^2+h^2)/2): not judged
+      rOK == bb \/ vw = vh \/ ~Has(at, "r") \/ Get(at, "r")[3] = 0
+  IN [kind |-> IF lin THEN "linear" ELSE IF focal THEN "radialf" ELSE "radial", num |-> lin \/ (rOK /\ (bb \/ vw = vh \/ Has(at, "r"))),
+      f |-> <<fx, fy>>,
       spread |-> IF Has(at, "spreadMethod") THEN Get(at, "spreadMethod") ELSE "pad",
       stops |-> ga.stops, bb |-> bb,
       gt |-> IF Has(at, "gradientTransform") THEN ListMatrix(Get(at, "gradientTransform"), 1) ELSE Id,
@@ -81,6 +86,33 @@ GradOf(doc, gi) ==
       p2 |-> IF lin THEN <<Dft("x2", 100), Dft("y2", 0)>> ELSE <<Dft("r", 50), <<0, 1>> >>]
 
 GradPaint(gr) == "grad:" \o gr.kind \o ":" \o gr.spread \o ":" \o StopsSig(gr.stops, 1)
+
+(* user-space image (x 64, floored) of the gradient-space point <<X, Y>> (rationals) under G *)
+UserPt64(Gm, X, Y) ==
+  LET D == Lcm(X[2], Y[2])
+      xn == X[1] * (D \div X[2])  yn == Y[1] * (D \div Y[2])
+      nx == (Gm[1] * xn + Gm[3] * yn + Gm[5] * D) * 64
+      ny == (Gm[2] * xn + Gm[4] * yn + Gm[6] * D) * 64
+  IN << nx \div (Gm[7] * D), ny \div (Gm[7] * D) >>
+
+(* the gradient matrix of a layer *)
+GradM(l) == LET bx == BBox(l.shape.tag, l.shape.g)
+                G0 == IF l.gr.bb THEN Mul(l.shape.m, <<bx[3], 0, 0, bx[4], bx[1], bx[2], 1>>) ELSE l.shape.m
+            IN Mul(G0, l.gr.gt)
+
+(* invariants of a radial gradient, independent of how it is written down: image of the centre and of  *)
+(* the focal point (x 64) and the conic  r^2 M M^T  of the image of the circle |q - c| = r  (x 4)       *)
+RadialInv(l) ==
+  LET Gm == GradM(l)
+      c == UserPt64(Gm, l.gr.p1[1], l.gr.p1[2])
+      f == UserPt64(Gm, l.gr.f[1], l.gr.f[2])
+      R == l.gr.p2[1]                       \* r as a rational <<n, d>>
+      k2 == Gm[7] * Gm[7] * R[2] * R[2]
+      q(u, v) == (R[1] * R[1] * (u + v) * 4) \div k2
+      small == Abs(Gm[1]) < 300 /\ Abs(Gm[2]) < 300 /\ Abs(Gm[3]) < 300 /\ Abs(Gm[4]) < 300 /\ R[1] < 70 /\ k2 < 100000
+  IN IF ~small THEN <<FALSE, <<>> >>
+     ELSE <<TRUE, <<c[1], c[2], f[1], f[2], q(Gm[1] * Gm[1], Gm[3] * Gm[3]), q(Gm[1] * Gm[2], Gm[3] * Gm[4]),
+                    q(Gm[2] * Gm[2], Gm[4] * Gm[4])>> >>
 
 (* floor(256 * n / m) for m > 0 without overflowing 32-bit integers (m < 8 * 10^6) *)
 Scale256(n, m) == (n \div m) * 256 + ((n % m) * 256) \div m
